@@ -459,6 +459,60 @@ func (g *gen) program() string {
 		default:
 			return "$count($keys(" + g.pick("$[0]", "a[0]") + ")) = $count($spread(" + g.pick("$[0]", "a[0]") + "))"
 		}
+	case "rx":
+		atoms := []string{"a", "b", "c", ".", "[ab]", "[^a]", "\\d", "(a)", "(b)", "(a|b)", "(a(b)?)", "(?:ab)", "é"}
+		quant := []string{"", "", "", "*", "+", "?", "{1,2}", "*?"}
+		pat := ""
+		for i, n := 0, 1+g.r.Intn(4); i < n; i++ {
+			pat += atoms[g.r.Intn(len(atoms))] + quant[g.r.Intn(len(quant))]
+			if g.chance(0.15) {
+				pat += "|"
+			}
+		}
+		if strings.HasSuffix(pat, "|") {
+			pat += "c"
+		}
+		pat = g.pick("", "", "^", "") + pat + g.pick("", "", "$", "")
+		if g.chance(0.1) {
+			pat = strings.Replace(pat, "a", "\\/", 1)
+		}
+		re := "/" + pat + "/" + g.pick("", "", "i", "m", "s", "im", "is", "ms", "ims")
+		sub := func() string {
+			pool := []rune("abcAB1/é ")
+			n := g.r.Intn(13)
+			rs := make([]rune, n)
+			for i := range rs {
+				rs[i] = pool[g.r.Intn(4+g.r.Intn(len(pool)-3))]
+			}
+			b, _ := json.Marshal(string(rs))
+			return string(b)
+		}
+		tpl := func() string {
+			parts := []string{"$0", "$1", "$2", "$3", "$12", "$$", "$", "x", "-", "$10", "$9", "<", ">"}
+			t := ""
+			for i, n := 0, g.r.Intn(5); i < n; i++ {
+				t += parts[g.r.Intn(len(parts))]
+			}
+			b, _ := json.Marshal(t)
+			return string(b)
+		}
+		lim := g.pick("", "", ", 0", ", 1", ", 2", ", 3", ", 4", ", -1")
+		switch g.r.Intn(9) {
+		case 0, 1:
+			return "$match(" + sub() + ", " + re + lim + ")"
+		case 2:
+			return "$contains(" + sub() + ", " + re + ")"
+		case 3:
+			return "$split(" + sub() + ", " + re + lim + ")"
+		case 4, 5:
+			return "$replace(" + sub() + ", " + re + ", " + tpl() + lim + ")"
+		case 6:
+			return "$replace(" + sub() + ", " + re + ", function($m){\"<\" & $m.match & \":\" & $join($m.groups, \",\") & \">\"}" + lim + ")"
+		case 7:
+			return "(" + re + ")(" + sub() + ")" + g.pick("", ".next()", ".next().next()", ".match", ".next().groups", ".start", ".next().end")
+		default:
+			return sub() + " ~> $match(" + re + ")"
+		}
 	case "str":
 		pool := []rune("ab, é€😀\t-z")
 		rs := func(max int) string {
